@@ -116,7 +116,7 @@ CHECKS = {
 
  'C15': dict(
    text='Proof: sum over any number of elements (all elements or one slice along an axis; x.size drives the growth) returns the exact sum with no flag (C15_sum_exact: growth rule, int64 accumulation, Fxp(val, raw=True)); the accumulating reductions never overflow their optimal format even with every element at an extreme - '
-        'bound lemmas for ANY length: C15_sum_no_overflow (count*2^(n-1) <= 2^(n-1+ceil(log2 count))) and C15_dot_no_overflow (via the product bound of C07); C15_accumulation_exact; the same for cumsum (every prefix sum, C15_cumsum_exact), prod (C15_prod_exact, C15_prod_no_overflow: the product of n codes fits a word n times as wide) and dot (C15_dot_exact), all for any length while the grown word stays within 62 bits. PARTIAL: cumprod and trace are modelled (Reduce.v) but not theorems; '
+        'bound lemmas for ANY length: C15_sum_no_overflow (count*2^(n-1) <= 2^(n-1+ceil(log2 count))) and C15_dot_no_overflow (via the product bound of C07); C15_accumulation_exact; the same for cumsum (every prefix sum, C15_cumsum_exact), prod (C15_prod_exact, C15_prod_no_overflow: the product of n codes fits a word n times as wide) and dot (C15_dot_exact), all for any length while the grown word stays within 62 bits. trace = the sum of the diagonal (C15_trace_exact). PARTIAL: cumprod is not a theorem; '
         'max / min / sort / clip / transpose / diagonal only select or rearrange codes. Tie: shapes to 3x3 / length 8, formats to 12 bits, extremes and random codes, both call routes, every axis; values, shape, growth rule, flags, type; model comparison for 1-D sum / cumsum / prod / dot. The dispatch glue itself has no model.',
    design='7/C15', technique='Coq proof (sum, cumsum, prod, dot exactness and no-overflow bounds for any length) + differential correspondence'),
 
